@@ -465,8 +465,9 @@ class Generator:
                 continue
             edits.append(c)
         out_sig = sig_head
+        plain = bool(opts.get("plain"))   # engine K (Kani): the function is emitted as written (no Verus syntax, no desugaring)
         if ret is not None:
-            out_sig += " -> (r: %s)" % ret.strip()
+            out_sig += (" -> %s" % ret.strip()) if plain else (" -> (r: %s)" % ret.strip())
         if where:
             out_sig += "\n    " + where.strip()
         lo = len(g.lines) + 1
@@ -484,11 +485,12 @@ class Generator:
             for c in edits:
                 if c.startswith("//@rewrite"):
                     body = self._apply_cont_rewrite(c, body, rules, it)
-            body = self._generic_desugar(body, rules)
-            self._flush = (opts.get("flush") == "on")
-            body = self._rewrite_macros(body, rules, od=(opts.get("od") != "off"))
-            if opts.get("od") != "off":
-                body = self._od_wrap(body, rules)
+            if not plain:
+                body = self._generic_desugar(body, rules)
+                self._flush = (opts.get("flush") == "on")
+                body = self._rewrite_macros(body, rules, od=(opts.get("od") != "off"))
+                if opts.get("od") != "off":
+                    body = self._od_wrap(body, rules)
             for c in edits:
                 if c.startswith("//@before") or c.startswith("//@after"):  # incl. afterstmt
                     body = self._apply_insert(c, body, rules, it)
